@@ -114,6 +114,20 @@ struct CtlInner {
     global_count: u64,
     /// delete observer: called with (path) at the instant a DELETE is applied
     hooks_enabled: bool,
+    /// contention burst: see `Ctl::set_contention`
+    contention: Option<Contention>,
+    contention_seen: u64,
+}
+
+/// A burst of lost compare-and-swap races: the conditional PUTs number `from .. from + count`
+/// (counted among conditional PUTs whose path contains `path_contains`) find that "another
+/// client" has just rewritten the object - same bytes, new ETag - so the backing store itself
+/// answers Precondition. Five in a row exhaust the catalog client's retry budget.
+#[derive(Clone, Debug)]
+pub struct Contention {
+    pub path_contains: String,
+    pub from: u64,
+    pub count: u64,
 }
 
 pub struct Ctl {
@@ -200,6 +214,22 @@ impl Ctl {
     }
     pub fn set_faults(&self, f: Vec<Fault>) {
         self.inner.lock().faults = f;
+    }
+    pub fn set_contention(&self, c: Option<Contention>) {
+        let mut g = self.inner.lock();
+        g.contention = c;
+        g.contention_seen = 0;
+    }
+    /// Is this conditional PUT one of the contended ones? (advances the ordinal)
+    fn contended(&self, path: &str) -> bool {
+        let mut g = self.inner.lock();
+        let Some(c) = g.contention.clone() else { return false };
+        if !path.contains(&c.path_contains) {
+            return false;
+        }
+        let k = g.contention_seen;
+        g.contention_seen += 1;
+        k >= c.from && k < c.from + c.count
     }
     pub fn reset_counters(&self) {
         let mut g = self.inner.lock();
@@ -483,6 +513,30 @@ impl ObjectStore for GateStore {
                 Err(injected(FaultMode::After, &path))
             }
             Release::Proceed => {
+                if matches!(opts.mode, PutMode::Update(_)) && self.ctl.contended(&path) {
+                    // another client's write lands first: same content, new ETag
+                    if let Ok(cur) = self.ctl.backing.get(location).await {
+                        if let Ok(b) = cur.bytes().await {
+                            let n = b.len();
+                            let r = self.ctl.backing.put(location, b.clone().into()).await;
+                            let (creq, _) = (req, ());
+                            self.ctl.log(Event {
+                                seq: 0,
+                                req: creq,
+                                actor: "contender".to_string(),
+                                call: false,
+                                op: "PUT".to_string(),
+                                path: path.clone(),
+                                mode: "overwrite(same-content)".to_string(),
+                                wall_ns: crate::clock::wall_ns(),
+                                result: if r.is_ok() { "ok".to_string() } else { "error".to_string() },
+                                etag: r.ok().and_then(|p| p.e_tag),
+                                payload: Some(b),
+                                len: n,
+                            });
+                        }
+                    }
+                }
                 let r = self.ctl.backing.put_opts(location, payload, opts).await;
                 match &r {
                     Ok(p) => self.ctl.leave(req, &self.actor, "PUT", &path, "ok", p.e_tag.clone(), len),
